@@ -1,8 +1,12 @@
 """C06 - singular matrices reported through info (structural clauses, DESIGN.md §4 C06)."""
-from ..rules import pivot
+from ..rules import pivot, driver
 
 
 def run(ctx, rep):
     mod = ctx.mod
     pivot.rule_O8_candidate_guard(mod, rep)
     pivot.rule_pivot_return_shape(mod, rep)
+    pivot.rule_min_tracking(mod, rep)
+    sing = lambda kw: kw["finfo"] == "SING"
+    driver.rule_expert_table(mod, rep, "C06", partition_filter=sing, rule="X-SING")
+    driver.rule_simple_table(mod, rep, {"gstrs", "B-store"}, rule="S-SING")
